@@ -298,13 +298,36 @@ def config_digests(seed, nops, only=None):
     return out
 
 
+def component_digests(seed):
+    """digest of what every reset function returns (or the exception class it raises) over a parameter grid that includes
+    combinations the functions reject today - nothing here may depend on the interpreter's hash seed"""
+    from . import c13
+    out = {}
+    shapes = [(5, 5), (5, 7), (7, 7), (6, 9), (9, 9), (10, 10)]
+    rng = random.Random(seed)
+    for name in c13.PRED:
+        for p in c13.param_grid(name, shapes, rng, True):
+            key = name + ':' + enc.jdump(c13.jsonable(p))
+            try:
+                fn = reset_fs.factory(name, **c13.to_kwargs(name, p))
+                st = fn(rng=np.random.default_rng(seed))
+                out[key] = enc.digest(enc.es(st))
+            except Exception as e:  # noqa
+                out[key] = type(e).__name__
+    return out
+
+
 def child_main(argv):
     seed, nops = int(argv[0]), int(argv[1])
-    print('C02CHILD ' + json.dumps({'hashseed': os.environ.get('PYTHONHASHSEED'), 'digests': config_digests(seed, nops)}))
+    digests = config_digests(seed, nops)
+    digests.update({'component:' + k: v for k, v in component_digests(seed).items()})
+    print('C02CHILD ' + json.dumps({'hashseed': os.environ.get('PYTHONHASHSEED'), 'digests': digests}))
 
 
 def cross_process(ctx, hash_seeds, seed, nops):
     mine = config_digests(seed, nops)
+    mine.update({'component:' + k: v for k, v in component_digests(seed).items()})
+    ctx.add('cross_process_component_cases', sum(1 for k in mine if k.startswith('component:')))
     env = dict(os.environ)
     for hs in hash_seeds:
         env['PYTHONHASHSEED'] = str(hs)
